@@ -52,32 +52,29 @@ var quirkNames = []string{"close-twice", "close-send-close", "cancel-then-everyt
 
 func init() {
 	families["apiquirks"] = famAPIQuirks
-	add := func(id string, quickReps, thoroughReps int) {
-		prev := listers[id]
-		listers[id] = func(tier string, seed int64) []Case {
-			out := prev(tier, seed)
-			rng := rand.New(rand.NewSource(seed*557 + 31))
-			reps := quickReps
-			if tier == "thorough" {
-				reps = thoroughReps
-			}
-			for r := 0; r < reps; r++ {
-				for _, q := range quirkNames {
-					for _, dir := range allDirs {
-						cfg := WorldCfg{Dir: dir}
-						if (r+len(q)+len(dir))%3 == 0 {
-							cfg.ClientNoFC, cfg.ServerNoFC = true, true
-						}
-						out = append(out, Case{Family: "apiquirks", Seed: rng.Int63(), Cfg: cfg, S: map[string]string{"quirk": q}})
-					}
+	// (listed by C13, C04 and C03: see fam_zlate.go - this file's init runs before the base
+	// listers of those checks are assigned)
+}
+
+func apiQuirkCases(tier string, seed int64) []Case {
+	var out []Case
+	rng := rand.New(rand.NewSource(seed*557 + 31))
+	reps := 1
+	if tier == "thorough" {
+		reps = 30
+	}
+	for r := 0; r < reps; r++ {
+		for _, q := range quirkNames {
+			for _, dir := range allDirs {
+				cfg := WorldCfg{Dir: dir}
+				if (r+len(q)+len(dir))%3 == 0 {
+					cfg.ClientNoFC, cfg.ServerNoFC = true, true
 				}
+				out = append(out, Case{Family: "apiquirks", Seed: rng.Int63(), Cfg: cfg, S: map[string]string{"quirk": q}})
 			}
-			return out
 		}
 	}
-	add("C13", 1, 30)
-	add("C04", 1, 30)
-	add("C03", 1, 30)
+	return out
 }
 
 func famAPIQuirks(w *World, c *Case, rng *rand.Rand) {
